@@ -19,8 +19,25 @@
    stops compiling when the loop is taken out of build_id again (the check
    then also replays C17_regression_count_plus_one_collides's history,
    corpus/C17/00_d10_only_date2.json and 01_d10_three_runs_keep1.json, on the
-   real scripts).  The log file half holds in full. *)
-From Robsd Require Import Inv.NameSpec Inv.NameProofs Inv.NameTie.
+   real scripts).
+
+   END TO END (Inv/NameNewDefs.v): [new_invocation] = build_id composed with
+   build_init on a tree WITH contents (the tree of the cleaning model, a file
+   node carries its bytes).  C17_new_invocation_fresh: in every tree reachable
+   by runs and cleaning the result is the tree plus exactly the four entries of
+   a fresh build directory; C17_new_invocation_never_overwrites: in ANY tree no
+   entry is removed or changed.
+
+   NOT CLAIMED (C17_concurrent_same_id_not_excluded): two runs that evaluate
+   build_id before either has created its directory get the same name and both
+   pass lock_acquire - replayed on util.sh, findings/C17_concurrent_same_id.md.
+
+   LOG FILES: the statement holds for every interleaving of attempts with
+   entries appearing anywhere (except top-level names STEM.log.k) and entries
+   without ".log" in their name disappearing (C17_log_env_fresh).  When a log
+   itself is deleted the next attempt can be handed the name of a log that is
+   still there (C17_log_del_refuted; replayed, findings/C17_log_id_after_delete.md). *)
+From Robsd Require Import Inv.NameSpec Inv.NameProofs Inv.NameTie Inv.NameNewDefs Inv.NameNew Inv.PurgeDefs.
 From RobsdGen Require Import Gen_Util.
 From Coq Require Import String.
 Local Open Scope N_scope.
@@ -80,6 +97,72 @@ Theorem C17_build_init_reuses_silently : forall names,
 Proof. exact build_init_reuses. Qed.
 Print Assumptions C17_build_init_reuses_silently.
 
+(* ---- a new invocation end to end: build_id, then build_init, on a tree with
+   contents.  For every tree [f] reached from a rooted tree by any sequence of
+   runs and removals (cleaning of any victims), on any date: the script gets
+   status 0, the tree afterwards is [f] followed by exactly the directory, its
+   tmp, an empty robsd.log and an empty step.csv; no entry of [f] carries the
+   new name or lies below it - so nothing of an earlier invocation is continued
+   or overwritten; and what log_id then sees is the fresh build directory ---- *)
+Theorem C17_new_invocation_fresh : forall start base ops f0 d,
+  rooted f0 ->
+  let f := fold_left (fs_step start base) ops f0 in
+  let id := build_id_current d start base (view f) in
+  new_invocation d start base f = (id, (0, f ++ fresh_entries id)) /\
+  has_path [id] f = false /\ (forall e, In e f -> under [id] (f_path e) = false) /\
+  builddir_view (f ++ fresh_entries id) id = fresh_builddir.
+Proof. exact new_invocation_after_history. Qed.
+Print Assumptions C17_new_invocation_fresh.
+
+(* in ANY tree (not rooted, entries of any kind under any name): every entry
+   is still there afterwards with the same node - file contents included - and
+   whatever is new is one of those four entries *)
+Theorem C17_new_invocation_never_overwrites : forall d start base f,
+  let r := snd (snd (new_invocation d start base f)) in
+  (forall e, In e f -> In e r) /\
+  exists extra, r = f ++ extra /\ incl extra (fresh_entries (fst (new_invocation d start base f))).
+Proof. exact new_invocation_preserves. Qed.
+Print Assumptions C17_new_invocation_never_overwrites.
+
+(* the flat model of build_init and the hand-written [fresh_builddir] are the
+   same thing *)
+Theorem C17_fresh_builddir_is_build_init :
+  map (fun e => basename (e_path e)) fresh_builddir = snd (build_init None) /\
+  forall id, map f_path (tl (fresh_entries id)) = map (fun n => [id; n]) (snd (build_init None)).
+Proof. exact fresh_builddir_is_build_init. Qed.
+Print Assumptions C17_fresh_builddir_is_build_init.
+
+(* NON-CLAIM.  The scripts call build_id, build_init and only then
+   lock_acquire.  Two runs A and B that both evaluate build_id on the same tree
+   are handed the same name; A creates the directory and takes the lock; B's
+   build_init finds everything in place (status 0, tree unchanged) and B's
+   lock_acquire succeeds because the lock names exactly B's directory.  A run
+   that computes its name after A created the directory is turned away. *)
+Theorem C17_concurrent_same_id_not_excluded : forall d start base rootstr f,
+  rooted f ->
+  let id := build_id_current d start base (view f) in
+  let bd := mkpath rootstr id in
+  nonl bd ->
+  let a_init := fs_build_init f id in
+  let a_lock := lock_acquire None bd in
+  let b_init := fs_build_init (snd a_init) id in
+  let b_lock := lock_acquire (snd a_lock) bd in
+  fst a_init = 0 /\ fst a_lock = 0 /\ fst b_init = 0 /\ fst b_lock = 0 /\
+  snd b_init = snd a_init /\ snd b_lock = snd a_lock.
+Proof. exact concurrent_same_id. Qed.
+Print Assumptions C17_concurrent_same_id_not_excluded.
+
+Theorem C17_util_sh_lock_acquire :
+  lock_acquire_compares_owner = true /\ lock_taken_after_build_init = true.
+Proof. exact lock_tie. Qed.
+Print Assumptions C17_util_sh_lock_acquire.
+
+Theorem C17_sequential_runs_excluded : forall rootstr id1 id2,
+  nonl (mkpath rootstr id1) -> id1 <> id2 ->
+  fst (lock_acquire (snd (lock_acquire None (mkpath rootstr id1))) (mkpath rootstr id2)) = 1.
+Proof. exact sequential_excluded. Qed.
+Print Assumptions C17_sequential_runs_excluded.
+
 (* ---- documented regression (defect D10, repaired in 70fb0eb): the count+1
    generator [build_id]/[gen_build_id] violates the statement.  Two invocations
    on one day, the older one cleaned away (robsd-clean with keep 1 does exactly
@@ -124,6 +207,30 @@ Theorem C17_log_inv_initial : forall start base,
 Proof. exact (fun start base => conj (log_inv_fresh_builddir start base) (log_inv_no_suffixed start base)). Qed.
 Print Assumptions C17_log_inv_initial.
 
+(* the build directory is not only written by log_id: for every interleaving
+   of attempts with entries appearing (anything that is not a top-level name
+   STEM.log.k) and entries disappearing together with what is below them
+   (anything without ".log" in its name), every attempt is handed a name no
+   entry carries at that moment *)
+Theorem C17_log_env_fresh : forall start base ops tree,
+  log_inv start base tree -> lguard start base tree ops ->
+  lfresh start base tree ops /\ log_inv start base (fold_left (lstep start base) ops tree).
+Proof. exact log_env_fresh. Qed.
+Print Assumptions C17_log_env_fresh.
+
+(* outside that guard - the log_id analogue of D10: after two attempts of step 1
+   "a" the log 001-a.log is deleted; the third attempt is handed 001-a.log.1,
+   which exists *)
+Theorem C17_log_del_refuted :
+  exists tree p sn,
+    log_inv (bs "/r/d") (bs "d") tree /\ ~ ldel_ok p tree /\
+    let tree' := ldel p tree in
+    fst (attempt (bs "/r/d") (bs "d") tree' sn) = bs "001-a.log.1" /\
+    has_top (fst (attempt (bs "/r/d") (bs "d") tree' sn)) tree' = true /\
+    ~ log_inv (bs "/r/d") (bs "d") tree'.
+Proof. exact log_inv_del_refuted. Qed.
+Print Assumptions C17_log_del_refuted.
+
 (* the oracles applied to the names util.sh printed mean freshness *)
 Theorem C17_oracles_sound : forall date tree step name out,
   (spec_ok_build_id date tree out = true -> fresh_in out tree /\ exists t, out = date ++ t) /\
@@ -133,6 +240,17 @@ Proof.
     conj (spec_ok_build_id_fresh date tree out) (spec_ok_log_id_fresh tree step name out)).
 Qed.
 Print Assumptions C17_oracles_sound.
+
+(* ... and they accept what the models produce: build_id as util.sh has it on
+   every tree, log_id on every build directory satisfying the invariant *)
+Theorem C17_oracles_complete : forall d start base tree step name,
+  spec_ok_build_id d tree (build_id_current d start base tree) = true /\
+  (log_inv start base tree -> spec_ok_log_id tree step name (log_id start base tree step name) = true).
+Proof.
+  exact (fun d start base tree step name =>
+    conj (spec_ok_build_id_complete d start base tree) (spec_ok_log_id_complete start base tree step name)).
+Qed.
+Print Assumptions C17_oracles_complete.
 
 (* non-vacuity: a third attempt of step 12 "bin/ksh" next to other logs, more
    than nine attempts, a name that echo would take for an option *)
